@@ -3,80 +3,14 @@
 package funcs
 
 import (
-	dtpb "github.com/google/fhir/go/proto/google/fhir/proto/r4/core/datatypes_go_proto"
 	"github.com/verily-src/fhirpath-go/fhirpath/internal/expr"
 	"github.com/verily-src/fhirpath-go/fhirpath/system"
 	"github.com/verily-src/fhirpath-go/internal/verifrt"
 )
 
-func verifSpare(label string, maxItems int) system.Collection {
-	n := verifrt.Choose(label+".n", maxItems+1)
-	k := verifrt.Choose(label+".spare", verifrt.Bound(2, 3))
-	c := make(system.Collection, 0, n+k)
-	for i := 0; i < n; i++ {
-		switch verifrt.Choose(label+".kind", verifrt.Bound(1, 3)) {
-		case 0:
-			c = append(c, system.Integer(verifrt.NondetIntRange(label+".i", 0, 2)))
-		case 2:
-			c = append(c, system.String(verifrt.NondetString(label+".s", 1)))
-		default:
-			c = append(c, &dtpb.HumanName{Family: &dtpb.String{Value: "x"}})
-		}
-	}
-	return c
-}
-
 // C03: calling any table function leaves its input collection, the collections its arguments evaluate to and the
-// environment untouched (backing arrays included), and the elements it returns are the input's own nodes.
-func VerifHarness_C03_FunctionsDoNotMutate() {
-	verifrt.IgnorePanics()
-	t := verifFullTable()
-	names := verifNames(t)
-	name := names[verifrt.Choose("fn", len(names))]
-	verifrt.Tag("fnName", name)
-	fn := t[name]
-	n := verifrt.Choose("nargs", 4)
-	verifrt.Assume(fn.MinArity <= n && n <= fn.MaxArity)
-	// the numeric functions read one scalar and build a fresh result (float paths are slow to decide): thorough only
-	verifrt.Assume(verifrt.Thorough() || verifKind(name) != "number")
-	input := verifSpare("in", verifrt.Bound(2, 3))
-	envV := verifSpare("v", verifrt.Bound(1, 2))
-	ctx := &expr.Context{ExternalConstants: map[string]any{"v": envV, "e": system.Collection{}}}
-	var args []expr.Expression
-	for i := 0; i < n; i++ {
-		switch verifrt.Choose("arg", 5) {
-		case 4: // a criterion whose value differs from item to item
-			args = append(args, &verifStub{r: []system.Collection{
-				{system.Boolean(verifrt.NondetBool("crit0"))}, {system.Boolean(verifrt.NondetBool("crit1"))}, {system.Boolean(verifrt.NondetBool("crit2"))}}})
-		case 0:
-			args = append(args, &expr.IdentityExpression{})
-		case 1:
-			args = append(args, &expr.ExternalConstantExpression{Identifier: "v"})
-		case 2:
-			args = append(args, &expr.LiteralExpression{Literal: system.Integer(verifrt.NondetIntRange("arg.i", -1, 3))})
-		default:
-			args = append(args, &expr.LiteralExpression{Literal: system.String(verifrt.NondetString("arg.s", 1))})
-		}
-	}
-	verifrt.ProtectSlice("input", input)
-	verifrt.ProtectSlice("env v", envV)
-	res, _ := fn.Func(ctx, input, args...)
-	for _, item := range res {
-		if hn, ok := item.(*dtpb.HumanName); ok {
-			own := false
-			for _, src := range []system.Collection{input, envV} {
-				for _, x := range src {
-					if x == any(hn) {
-						own = true
-					}
-				}
-			}
-			verifrt.Assert(own, "result-elements-are-the-inputs-own-nodes")
-		}
-	}
-	verifrt.CheckFrames()
-	verifrt.Reach("end")
-}
+// environment untouched (see verifFunctionsDoNotMutate).
+func VerifHarness_C03_FunctionsDoNotMutate() { verifFunctionsDoNotMutate() }
 
 // C03: the collection-shaping functions on three-item inputs with repeated items (an in-place compaction or filter
 // only shows when a later item moves over an earlier, different one: [a, a, b]).
